@@ -399,6 +399,22 @@ class Builder:
             self.out(target, [f"{c} = {self.cond()}", f"if {c}:", f"    {x} = {first or self.val('int')}", f"    {x} {op} {rhs}", f"    mon.write({x})", f"if {c}:", f"    mon.write({x})"])
         return "aug_promote_" + where
 
+    def s_recursive(self, target):
+        """a recursive helper whose base case returns a float / bool: the type of the self-call's result (stored in a local, used in an expression,
+        returned directly) is the helper's own return type"""
+        h, n, r_ = self.name("h"), self.name("a"), self.name("r")
+        base = self.draw(st.sampled_from(["0.5", "1.25", "True", "2.5", "0.0"]))
+        form = self.draw(st.sampled_from(["local", "local_expr", "direct", "local_then_write", "two_locals"]))
+        body = {"local": [f"    {r_} = {h}({n} - 1)", f"    return {r_}"],
+                "local_expr": [f"    {r_} = {h}({n} - 1) + 1", f"    return {r_}"],
+                "direct": [f"    return {h}({n} - 1) + 1"],
+                "local_then_write": [f"    {r_} = {h}({n} - 1)", f"    mon.write({r_})", f"    return {r_} * 2"],
+                "two_locals": [f"    {r_} = {h}({n} - 1)", f"    {r_}b = {r_}", f"    return {r_}b"]}[form]
+        self.pre += [f"def {h}({n}):", f"    if {n} <= 0:", f"        return {base}"] + body
+        x = self.name()
+        self.out(target, [f"{x} = {h}({self.draw(st.integers(0, 3))})", f"mon.write({x})"])
+        return "recursive"
+
     def s_nested_call_position(self, target):
         """the only float-typed call of an un-annotated helper sits inside another expression (a conversion, an operator, another call, a list,
         a comparison): the helper still needs its float variant"""
@@ -458,7 +474,7 @@ class Builder:
 
 
 SAFE = ["if_else_join", "ifexp_join", "float_first", "branch_hoist", "elif_hoist", "for_hoist", "while_hoist", "return_join", "annotated_param",
-        "list_join", "string_promotion", "tuple", "cross_pass", "mixed_arith", "device_getter", "nested_hoist", "same_local_two_helpers", "shadow", "promoted_param", "nested_call_position", "aug_promote", "annotation_mismatch"]
+        "list_join", "string_promotion", "tuple", "cross_pass", "mixed_arith", "device_getter", "nested_hoist", "same_local_two_helpers", "shadow", "promoted_param", "nested_call_position", "aug_promote", "annotation_mismatch", "recursive"]
 OPEN = ["retype", "multi_signature", "unannotated_param", "branch_in_loop", "float_minmaxabs", "main_loop_first_assign"]
 
 
